@@ -41,6 +41,8 @@ LEAN_SOURCES = ["LenaModel/Model/C20.lean", "LenaModel/Lemmas/C20.lean", "LenaMo
 THEOREMS = [
     # general (for all facts)
     "Lena.C20.resolver_sound",
+    "Lena.C20.resolver_sound_envs",
+    "Lena.C20.exported_envs",
     "Lena.C20.resolver_alarm_is_real",
     "Lena.C20.explore_failed_real",
     "Lena.C20.import_ok_of_resolvesAll",
@@ -76,8 +78,9 @@ TRUSTED = [
     "interpreter and the bytecode show",
     "the abstract import/name-resolution semantics of Model/C20.lean (sys.modules, partially initialised modules, "
     "setattr of a submodule on its package, IMPORT_FROM fall-back, LEGB with builtins), validated likewise",
-    "CPython 3.12 and the installed distributions of /venv (interpreter-version tests and `except ImportError` paths are "
-    "decided for this environment)",
+    "CPython 3.12 (interpreter-version tests are decided for it; Python-2 standard-library modules such as "
+    "future_builtins are never importable); which optional third-party modules are installed is NOT assumed: it is "
+    "the environment parameter the theorems quantify over",
     "JSON line protocol (harness/props/c20.py, drivers/C20.lean)",
 ]
 ASSUMPTIONS = [
@@ -90,7 +93,9 @@ ASSUMPTIONS = [
     "in the evidence as dynamic), exec/eval and the Python-2 branches are outside the model",
     "objects that are not lena modules are opaque: attributes of classes and instances are not checked",
 ]
-RULE = ("exhaustive: every entry point (each of the 9 sub-packages alone, and all together) x every function/method/lambda "
+RULE = ("for every environment (every subset of the third-party modules that lena's import-time code imports -- here "
+        "jinja2 present / absent, produced in fresh interpreters with sys.modules[name] = None): "
+        "exhaustive: every entry point (each of the 9 sub-packages alone, and all together) x every function/method/lambda "
         "of every module that entry loads (one case each: bytecode verdict vs model verdict), one case per entry for "
         "import / star import / __all__ / sys.modules / all module namespaces, and one behaviour case per public name "
         "(own sub-package only vs whole framework, ~35 argument tuples and the element methods on 9 values / 5 flows). "
@@ -158,35 +163,53 @@ def _pre_build(ctx):
 # ----------------------------------------------------------------------------------------------------------
 # probes (fresh interpreters)
 
-def _run_probe(mode, pkg):
+def _absent(env):
+    """names of the third-party modules that are absent in environment `env` (a bit set over facts["ext"])"""
+    return [x for i, x in enumerate(_facts()["ext"]) if (env >> i) & 1]
+
+
+def _testable(env):
+    """can this environment be produced in a fresh interpreter?  Absence can always (sys.modules[name] = None);
+    presence only of what is installed (a stub would not behave like the real module at import time)"""
     facts = _facts()
-    env = dict(os.environ, PYTHONWARNINGS="ignore", PYTHONDONTWRITEBYTECODE="1", PYTHONHASHSEED="0")
-    env.pop("PYTHONPATH", None)
+    return all(((env >> i) & 1) or extract_facts._ext_available(x) for i, x in enumerate(facts["ext"]))
+
+
+def _run_probe(mode, pkg, env):
+    facts = _facts()
+    penv = dict(os.environ, PYTHONWARNINGS="ignore", PYTHONDONTWRITEBYTECODE="1", PYTHONHASHSEED="0")
+    penv.pop("PYTHONPATH", None)
     # -I: isolated (no PYTHONPATH, no script directory on sys.path); the probe puts the tree under test first
-    extra = [json.dumps(_state["random"])] if _state["random"] and mode != "static" else []
+    opts = dict(_state["random"] or {}) if mode != "static" else {}
+    opts["absent"] = _absent(env)
+    extra = [json.dumps(opts)]
     p = subprocess.run([_PY, "-I", _PROBE, str(REPO), mode, pkg, json.dumps(facts["subpackages"])] + extra,
-                       capture_output=True, text=True, timeout=600, env=env, cwd="/tmp")
+                       capture_output=True, text=True, timeout=600, env=penv, cwd="/tmp")
     if p.returncode != 0 or not p.stdout.strip():
-        raise RuntimeError(f"probe {mode} {pkg} failed rc={p.returncode}: {p.stderr[-1500:]}")
+        raise RuntimeError(f"probe {mode} {pkg} env={env} failed rc={p.returncode}: {p.stderr[-1500:]}")
     return json.loads(p.stdout)
 
 
-def _probe(mode, pkg):
-    key = (mode, pkg)
+def _probe(mode, pkg, env):
+    key = (mode, pkg, env)
     tab = _state["static"] if mode == "static" else _state["behaviour"]
     if key not in tab:
-        tab[key] = _run_probe(mode, pkg)
+        tab[key] = _run_probe(mode, pkg, env)
     return tab[key]
 
 
 def _probe_all(ctx):
     facts = _facts()
-    jobs = [("static", p) for p in facts["subpackages"] + ["all"]]
-    jobs += [(m, p) for p in facts["subpackages"] for m in ("behaviour", "behaviour-full")]
+    jobs = []
+    for env in facts["envs"]:
+        if not _testable(env):
+            continue
+        jobs += [("static", p, env) for p in facts["subpackages"] + ["all"]]
+        jobs += [(m, p, env) for p in facts["subpackages"] for m in ("behaviour", "behaviour-full")]
     todo = [j for j in jobs if j not in _state["static"] and j not in _state["behaviour"]]
     with concurrent.futures.ThreadPoolExecutor(max_workers=8) as ex:
-        for (mode, pkg), res in zip(todo, ex.map(lambda j: _run_probe(*j), todo)):
-            (_state["static"] if mode == "static" else _state["behaviour"])[(mode, pkg)] = res
+        for (mode, pkg, env), res in zip(todo, ex.map(lambda j: _run_probe(*j), todo)):
+            (_state["static"] if mode == "static" else _state["behaviour"])[(mode, pkg, env)] = res
 
 
 def _entry_name(pkg):
@@ -214,28 +237,38 @@ def _gen_cases(ctx):
     _probe_all(ctx)
     cases = [{"kind": "meta"}]
     by_name = {m["name"]: m for m in facts["modules"]}
-    n_fun = 0
-    for pkg in facts["subpackages"] + ["all"]:
-        cases.append({"kind": "entry", "entry": pkg})
-        pr = _probe("static", pkg)
-        if pr["import"] != "ok":
-            continue        # the entry case reports the failing import; nothing is callable
-        keys = set(pr.get("funcs", {}))
-        for mname in pr.get("loaded", []):
-            for f in by_name.get(mname, {}).get("funcs", []):
-                keys.add(f"{mname}|{f['name']}|{f['line']}")
-        for k in sorted(keys):
-            mname, q, line = k.rsplit("|", 2)
-            cases.append({"kind": "func", "entry": pkg, "module": mname, "func": q, "line": int(line)})
-            n_fun += 1
-    for pkg in facts["subpackages"]:
-        own = _probe("behaviour", pkg)
-        full = _probe("behaviour-full", pkg)
-        names = sorted(set(own.get("results", {})) | set(full.get("results", {})))
-        if not names:
-            cases.append({"kind": "behaviour", "pkg": pkg, "name": None})
-        for n in names:
-            cases.append({"kind": "behaviour", "pkg": pkg, "name": n})
+    untestable = []
+    for env in facts["envs"]:
+        if not _testable(env):
+            untestable.append(env)
+            continue
+        ab = _absent(env)
+        for pkg in facts["subpackages"] + ["all"]:
+            cases.append({"kind": "entry", "entry": pkg, "env": env, "absent": ab})
+            pr = _probe("static", pkg, env)
+            if pr["import"] != "ok":
+                continue        # the entry case reports the failing import; nothing is callable
+            keys = set(pr.get("funcs", {}))
+            for mname in pr.get("loaded", []):
+                for f in by_name.get(mname, {}).get("funcs", []):
+                    keys.add(f"{mname}|{f['name']}|{f['line']}")
+            for k in sorted(keys):
+                mname, q, line = k.rsplit("|", 2)
+                cases.append({"kind": "func", "entry": pkg, "env": env, "absent": ab, "module": mname, "func": q,
+                              "line": int(line)})
+        for pkg in facts["subpackages"]:
+            own = _probe("behaviour", pkg, env)
+            full = _probe("behaviour-full", pkg, env)
+            names = sorted(set(own.get("results", {})) | set(full.get("results", {})))
+            if not names:
+                cases.append({"kind": "behaviour", "pkg": pkg, "name": None, "env": env, "absent": ab})
+            for n in names:
+                cases.append({"kind": "behaviour", "pkg": pkg, "name": n, "env": env, "absent": ab})
+    notes = getattr(ctx, "notes", [])
+    notes.append({"environments": [{"env": e, "absent": _absent(e), "tested_in_fresh_interpreters": e not in untestable}
+                                   for e in facts["envs"]],
+                  "third_party_modules_of_import_time_code": facts["ext"], "never_importable_here": facts["always_absent"]})
+    ctx.notes = notes
     # the scope of the quantifier (sub-packages x advertised names x functions x global loads) is enumerated
     # completely; the argument tuples of the behaviour cases are a fixed palette (+ a seeded sample in thorough)
     ctx.exhaustive = True
@@ -250,17 +283,17 @@ def run_impl(case):
     if kind == "meta":
         return {"hash": facts["source_hash"], "modules": [m["name"] for m in facts["modules"]]}
     if kind == "entry":
-        pr = _probe("static", case["entry"])
+        pr = _probe("static", case["entry"], case["env"])
         return {"import": pr["import"], "star": pr["star"], "loaded": pr["loaded"], "ns": pr["ns"]}
     if kind == "func":
-        pr = _probe("static", case["entry"])
+        pr = _probe("static", case["entry"], case["env"])
         ent = pr["funcs"].get(f"{case['module']}|{case['func']}|{case['line']}")
         if ent is None:
             return {"present": False, "import": pr["import"] if pr["import"] != "ok" else None}
         return {"present": True, "loads": ent["loads"], "problems": ent["problems"], "forked": ent["forked"]}
     if kind == "behaviour":
-        own = _probe("behaviour", case["pkg"])
-        full = _probe("behaviour-full", case["pkg"])
+        own = _probe("behaviour", case["pkg"], case["env"])
+        full = _probe("behaviour-full", case["pkg"], case["env"])
         if case["name"] is None:
             return {"own_fatal": own.get("fatal"), "full_fatal": full.get("fatal")}
         return {"own": own.get("results", {}).get(case["name"]), "full": full.get("results", {}).get(case["name"]),
@@ -274,10 +307,10 @@ def model_requests(case):
     if kind == "meta":
         return [{"op": "meta"}]
     if kind == "entry":
-        return [{"op": "entry", "e": _entry_name(case["entry"])}]
+        return [{"op": "entry", "e": _entry_name(case["entry"]), "env": case["env"]}]
     if kind == "func":
-        return [{"op": "call", "e": _entry_name(case["entry"]), "m": case["module"], "f": case["func"],
-                 "line": case["line"]}]
+        return [{"op": "call", "e": _entry_name(case["entry"]), "env": case["env"], "m": case["module"],
+                 "f": case["func"], "line": case["line"]}]
     return []
 
 
@@ -297,6 +330,8 @@ def compare(case, res, replies):
             return "module list of the Lean facts differs from the translator's"
         if not m.get("layout"):
             return "layoutOk is false for the generated facts"
+        if m.get("ext") != facts["ext"] or m.get("envs") != facts["envs"]:
+            return f"environments of the Lean facts {m.get('ext')} {m.get('envs')} differ from the translator's"
         return None
     if kind == "entry":
         imp_ok = res["import"] == "ok"
@@ -376,8 +411,18 @@ def _undefined(summ):
     return isinstance(summ, str) and ":UNDEFINED:" in summ
 
 
+def _envtxt(case):
+    missing = [x for x in case.get("absent", []) if x not in _facts()["always_absent"]]
+    return f" [environment: {', '.join(missing)} cannot be imported]" if missing else ""
+
+
 def oracle(case, res):
     """the property's own statement on the real code"""
+    msg = _oracle(case, res)
+    return msg + _envtxt(case) if msg else None
+
+
+def _oracle(case, res):
     kind = case["kind"]
     if kind == "meta":
         return None
@@ -484,13 +529,15 @@ def signature(case, failure):
             return f"behaviour-fatal:{case['pkg']}"
         return f"behaviour:{case['pkg']}:{case['name']}"
     if case["kind"] == "entry" and "__all__" in (failure or ""):
-        return "entry:" + failure           # the same missing name seen from two entry points is one finding
+        return "entry:" + failure.split(" [environment")[0]   # seen from two entry points / environments: one finding
     return f"{case['kind']}:{case.get('entry', '')}"
 
 
 # ---- MANIFEST texts ------------------------------------------------------------------------
 LEVEL_TEXT = ("Lean 4 theorems about an interpreter for Python's import machinery and name resolution (sys.modules, "
-              "partially initialised modules, submodule attributes, IMPORT_FROM, LEGB): resolver_sound holds for all facts "
+              "partially initialised modules, submodule attributes, IMPORT_FROM, LEGB, try/except ImportError around "
+              "optional third-party imports, with the set of absent third-party modules as a parameter): resolver_sound "
+              "/ resolver_sound_envs hold for all facts and all environments "
               "(no entry point followed by any sequence of calls reaches an unresolved global or a missing attribute of a "
               "lena module when the check passes), and the instance theorems current_tree_resolves / current_tree_safe / "
               "all_exported are re-checked by the kernel on every run against facts regenerated from the working tree by a "
